@@ -158,6 +158,16 @@ def run(ck, prog, ctx):
         parses = [(bi, t) for fb in prog.family(tf) for bi, t in fb.calls() if t.callee.method in ("parse", "from_str", "from_str_radix") and "str" in (t.callee.name or "")]
         if not parses:
             ck.undecided("ROLE", "parse/input", "no str::parse / from_str call found in TryFrom<&str>", where=tf.where())
+        # the other text entry points of the id type (the panicking parser behind From<String> / PartialEq<str>) obey the same rule
+        for ob_ in sorted(prog.production(), key=lambda b_: b_.id):
+            if ob_.kind in ("Fn", "AssocFn") and ob_.file == tf.file and ob_.id != tf.id and ob_.nargs >= 1:
+                for bi, t in ob_.calls():
+                    if t.callee.method in ("parse", "from_str", "from_str_radix") and "str" in (t.callee.name or ""):
+                        at = pv.of_operand(ob_, t.args[0])
+                        from props.shared import text_changes
+                        bad = text_changes(prog, pv, ob_, t.args[0], slicing_ok=True)
+                        ck.ob("ROLE", "parse/input/%s" % ob_.short, not bad and any(a[0] == "param" for a in at), "%s parses the number from %s" % (ob_.short, "a sub-slice of its input text" if not bad else
+                              "its input after `%s`: digits are dropped or rearranged before parsing (an id with more digits than that parses to another id)" % ", ".join(bad)), where=ob_.where(t.line))
         for bi, t in parses:
             at = pv.of_operand(tf, t.args[0])
             steps = sorted({a[1].rsplit("::", 1)[-1].split("::<")[0] for a in at if a[0] == "call" and re.search(r"core::str::<impl str>::|alloc::str::<impl str>::|std::string::String::", a[1])})
